@@ -21,7 +21,7 @@ Definition pend_cfg : config :=
    gate returned nil and runnable 1 was started ([LLaunch 1; LRunCall 1]); now the gate returns the
    queued failure, nothing is started and Run() returns that error. *)
 Definition pend_prefix : list label :=
-  [LLaunch 0; LRunStore 0; LRunCall 0; LMonSub 0; LMonRecv 0; LPollBegin 0; LRunRet 0 (Some (7, false)); LErrSend 0;
+  [LRunEnter; LRunEntered; LLaunch 0; LRunStore 0; LRunCall 0; LMonSub 0; LMonRecv 0; LPollBegin 0; LRunRet 0 (Some (7, false)); LErrSend 0;
    LQuiet; LParentCancel; LPoll 0 false; LGateCtx 0].
 Definition pend_sched : list label :=
   pend_prefix ++ [LMainShutdown; LStopCall 0; LStopRet 0; LSdCancel; LStmExit; LSdWgDone; LMainReturn (ResErr 7)].
@@ -77,7 +77,8 @@ Inductive pe_effect (c : config) (s s' : state) : Prop :=
     waiting (rn_at s i) -> rn s' = upd (rn s) i RnRunning -> main s' = main s -> errq s' = errq s ->
     hist s' = ERunCall i :: hist s -> pe_effect c s s'
 | pe_other :
-    (main s' = main s \/ exists i, main s = MGate i /\ main s' = MGateCheck i) ->
+    (main s' = main s \/ (exists i, main s = MGate i /\ main s' = MGateCheck i) \/
+     (main s = MNew /\ main s' = MEntering) \/ (main s = MEntering /\ main s' = MLaunch 0)) ->
     rn s' = rn s -> errq s' = errq s ->
     (hist s' = hist s \/ exists x, hist s' = x :: hist s /\ is_real_ev x = false /\ is_quiet_ev x = false) ->
     pe_effect c s s'
@@ -101,8 +102,11 @@ Proof.
             simp_st; unfold after_launch; try match goal with |- context [if ?b then _ else _] => destruct b end;
             reflexivity).
   all: try (eapply pe_closed; [eassumption|reflexivity|reflexivity|reflexivity|reflexivity]; fail).
-  all: try (apply pe_other; [right; eexists; split; [eassumption|reflexivity]|reflexivity|reflexivity|
+  all: try (apply pe_other; [right; left; eexists; split; [eassumption|reflexivity]|reflexivity|reflexivity|
             right; eexists; split; [reflexivity|split; reflexivity]]; fail).
+  all: try (apply pe_other; [right; right; first [left; split; [assumption|reflexivity]|right; split; [assumption|reflexivity]]
+                            |reflexivity|reflexivity|
+            first [left; reflexivity|right; eexists; split; [reflexivity|split; reflexivity]]]; fail).
   all: try (eapply pe_open; [first [left; eassumption|right; eassumption]|assumption|
                              reflexivity|reflexivity|reflexivity|reflexivity]; fail).
   all: try (eapply pe_runcall; [first [left; eassumption|right; eassumption]|reflexivity|reflexivity|reflexivity|reflexivity]; fail).
@@ -218,6 +222,8 @@ Proof.
   intros Hn Hre Q Hq. pose proof (InvGate_reachable _ _ Hre) as IG.
   destruct (errq s) as [|e q] eqn:Eq; [congruence|].
   destruct (main s) eqn:Em.
+  - exfalso. pose proof (InvNewQ_reachable _ _ Hre (or_introl Em)). congruence.
+  - exfalso. pose proof (InvNewQ_reachable _ _ Hre (or_intror Em)). congruence.
   - exfalso. pose proof (launch_idx_lt c s Hn Hre _ Em) as Li.
     assert (Hin : In (LLaunch i) (taus_nt c s))
       by (in_chain ltac:(apply in_map_iff; exists i; split; [reflexivity|now apply in_idxs])).
@@ -316,9 +322,10 @@ Proof.
       destruct (B R) as [NL _]. exfalso. exact (NL i Ern).
   - (* everything else *)
     assert (Hd : decided s -> decided s').
-    { unfold decided. destruct Hm as [->|(i & E & _)]; [auto|]. rewrite E. intros X. now contradiction X. }
+    { unfold decided. destruct Hm as [->|[(i & E & _)|[(E & _)|(E & _)]]]; [auto|..]; rewrite E; intros X; now contradiction X. }
     assert (Hg : at_gate s -> at_gate s').
-    { unfold at_gate. destruct Hm as [->|(i & E & ->)]; [auto|]. intros _. exists i. now right. }
+    { unfold at_gate. destruct Hm as [->|[(i & E & ->)|[(E & _)|(E & _)]]]; [auto|intros _; exists i; now right|..];
+        intros (j & [X|X]); rewrite E in X; discriminate X. }
     rewrite Eq. unfold rn_at. rewrite Er. split.
     + intros R. assert (R0 : real_in (hist s) = true).
       { destruct Eh as [Eh|(x & Eh & Hx & _)]; rewrite Eh in R; [exact R|].
@@ -393,10 +400,12 @@ Proof.
     + left. unfold at_gate. rewrite Em, Eq. now split.
     + left. unfold at_gate. rewrite Em, Eq. now split.
     + left. rewrite Eq. split; [|exact Hq]. unfold at_gate in *.
-      destruct Hm as [->|(i & E & ->)]; [exact G|]. exists i. now right.
+      destruct Hm as [->|[(i & E & ->)|[(E & _)|(E & _)]]]; [exact G|exists i; now right|..];
+        exfalso; destruct G as (j & [X|X]); rewrite E in X; discriminate X.
     + left. unfold at_gate. rewrite Em, Eq. now split.
-  - destruct (step_su_effect _ _ _ _ H) as [i Em Es Li Er Em' Es' | i Em Em' Er _ | i Em Em' Er _ | Hm Er | Em Er].
+  - destruct (step_su_effect _ _ _ _ H) as [i Em Es Li Er Em' Es' | i Em Em' Er _ | i Em Em' Er _ | Em Er | Hm _ _ Er | Em Er].
     + exfalso. exact (at_gate_not_launch _ _ Em G).
+    + unfold launched. now rewrite Er.
     + unfold launched. now rewrite Er.
     + unfold launched. now rewrite Er.
     + unfold launched. now rewrite Er.
